@@ -9,7 +9,9 @@ KINDS = ["read_all", "write1", "write2", "fail_body", "fail_encoder", "fail_flus
          # the body is left by an exception that is NOT an Exception subclass (Ctrl-C in a notebook, sys.exit() caught higher up)
          "fail_body_interrupt", "fail_body_sysexit", "read_fail_interrupt",
          # a writing session that first READS a record that is already there (deriving a new record from an old one), then stores
-         "read_write1"]
+         "read_write1",
+         # the STREAM write of the second record's value fails (disk full) - inside UKVFile.put, below the backend's own _write
+         "fail_stream_write"]
 TIMEOUT = 5.0
 
 
@@ -109,6 +111,23 @@ def run_session(c, kind: str, keys: list[str], vals: list[bytes]) -> dict:
                 elif kind in ("fail_body", "fail_body_interrupt", "fail_body_sysexit"):
                     c[keys[0]] = vals[0]; res["put_ok"].append(keys[0])
                     raise (Boom("writer body fails") if kind == "fail_body" else KeyboardInterrupt("injected") if kind == "fail_body_interrupt" else SystemExit(3))
+                elif kind == "fail_stream_write":
+                    uf = be._ukvfile
+                    real_stream = uf._stream
+                    doomed = vals[1]
+
+                    class _Full:
+                        def write(self_, b):
+                            if bytes(b) == doomed:
+                                raise InjectedIOError(28, "injected: no space left on device")
+                            return real_stream.write(b)
+
+                        def __getattr__(self_, nm):
+                            return getattr(real_stream, nm)
+
+                    uf._stream = _Full()
+                    c[keys[0]] = vals[0]; res["put_ok"].append(keys[0])
+                    c[keys[1]] = vals[1]             # raises here (unbuffered) or at the exit-time flush (buffered)
                 elif kind == "fail_encoder":
                     c[keys[0]] = vals[0]; res["put_ok"].append(keys[0])
                     c[keys[1]] = MARK
